@@ -1,0 +1,33 @@
+// Copyright 2021 TiKV Project Authors.
+//
+// Licensed under the Apache License, Version 2.0 (the "License");
+// you may not use this file except in compliance with the License.
+// You may obtain a copy of the License at
+//
+//     http://www.apache.org/licenses/LICENSE-2.0
+//
+// Unless required by applicable law or agreed to in writing, software
+// distributed under the License is distributed on an "AS IS" BASIS,
+// See the License for the specific language governing permissions and
+// limitations under the License.
+
+//go:build verif
+// +build verif
+
+package hbstream
+
+import "github.com/pingcap/kvproto/pkg/pdpb"
+
+// VerifDrain returns (without blocking) every message queued for the stores when
+// background running is disabled (NewTestHeartbeatStreams with needRun=false).
+func (s *HeartbeatStreams) VerifDrain() []*pdpb.RegionHeartbeatResponse {
+	var out []*pdpb.RegionHeartbeatResponse
+	for {
+		select {
+		case m := <-s.msgCh:
+			out = append(out, m)
+		default:
+			return out
+		}
+	}
+}
